@@ -62,7 +62,8 @@ ArgS == SeqsUpTo(BA, 2)
 FNames == {<<CLetter>>, FnESDTTransfer, <<CLower, CDigit>>, <<>>, <<CLetter, AT>>, <<CNonHex, 0, 255>>}
 TypedElems == {[t |-> "byte", n |-> 0], [t |-> "byte", n |-> 171], [t |-> "int", n |-> 0], [t |-> "int", n |-> 255], [t |-> "int", n |-> 256],
                [t |-> "int", n |-> -1], [t |-> "int", n |-> 2147483647], [t |-> "big", b |-> <<0, 1, 0>>], [t |-> "big", b |-> <<>>],
-               [t |-> "bool", n |-> 1], [t |-> "bool", n |-> 0], [t |-> "bytes", b |-> <<64>>]}
+               [t |-> "bool", n |-> 1], [t |-> "bool", n |-> 0], [t |-> "bytes", b |-> <<64>>],
+               [t |-> "int64", n |-> 0], [t |-> "int64", n |-> -256], [t |-> "int64", n |-> 65536], [t |-> "str", b |-> <<CLetter, AT, 0>>], [t |-> "str", b |-> <<>>]}
 BuildRowOf(f, es) == [k |-> "build", f |-> f, es |-> es, data |-> BuildElems(f, es), exp |-> ParseCall(BuildElems(f, es))]
 BuildRow(c) == BuildRowOf(c[1], c[2])
 ArgSeq == SetToSeq(ArgS)
